@@ -83,6 +83,9 @@ def caterpillar(n):
 
 
 HEIGHT_MODES = ['distinct', 'tied', 'ties', 'mono_unsorted', 'distinct_unsorted', 'inf_tail', 'random']
+# heights that are negative / zero / of both signs (log-scale heights, heights = minus depth as get_dendrogram writes them)
+SIGNED_MODES = ['neg_depth', 'zero_at', 'zero_between', 'nonpos', 'negative', 'log', 'signed_random', 'all_zero']
+ALL_MODES = HEIGHT_MODES + SIGNED_MODES
 
 
 def heights_for(rng, pairs, n, mode):
@@ -129,6 +132,49 @@ def heights_for(rng, pairs, n, mode):
         return hs
     if mode == 'random':
         return [float(rng.choice([0.5, 1.0, 2.0, 3.0, 4.0])) for _ in range(m)]
+    if mode == 'neg_depth':
+        # what get_dendrogram writes: float(-depth) of the merged node, the root at depth 0 (height -0.0 == 0.0);
+        # a node created by row t is one level below the row that consumes it
+        parent = {}
+        for t, (a, b) in enumerate(pairs):
+            parent[a] = n + t
+            parent[b] = n + t
+        hs = []
+        for t in range(m):
+            depth, x = 0, n + t
+            while x in parent:
+                x = parent[x]
+                depth += 1
+            hs.append(float(-depth))
+        return hs
+    if mode in ('zero_at', 'zero_between', 'nonpos', 'negative'):
+        # a positive pattern (dyadic numbers: the shift is exact and keeps order and ties) moved so that 0 is one of the
+        # heights / lies strictly between two heights / is the largest height / is above every height
+        base = heights_for(rng, pairs, n, rng.choice(['distinct', 'ties', 'mono_unsorted', 'distinct_unsorted']))
+        vals = sorted(set(base))
+        if mode == 'zero_at':
+            shift = rng.choice(vals)
+        elif mode == 'zero_between':
+            shift = rng.choice([(a + b) / 2 for a, b in zip(vals, vals[1:])]) if len(vals) > 1 else vals[0] + 0.5
+        elif mode == 'nonpos':
+            shift = vals[-1]
+        else:
+            shift = vals[-1] + rng.choice([0.5, 1.0, 3.0])
+        return [h - shift for h in base]
+    if mode == 'log':
+        # logarithms of positive heights on both sides of 1 (not dyadic numbers; encoded exactly all the same)
+        hs, cur = [], rng.choice([0.01, 0.1, 0.25])
+        for _ in range(m):
+            cur *= rng.choice([1.0, 1.5, 2.0, 3.0])
+            hs.append(cur)
+        if rng.random() < 0.5:
+            hs[rng.randrange(m)] = 1.0          # a height exactly 0 after the logarithm
+            hs.sort()
+        return [math.log(h) for h in hs]
+    if mode == 'signed_random':
+        return [float(rng.choice([-2.0, -1.0, -0.5, 0.0, -0.0, 0.5, 1.0])) for _ in range(m)]
+    if mode == 'all_zero':
+        return [0.0] * m
     raise ValueError(mode)
 
 
